@@ -53,6 +53,9 @@ PATTERNS = {
     # the replacement's H is the search H moved by 0.05 A (NOT a common atom: coordinates differ) with another charge
     'CH->CH-moved': (_pat(['C', 'H'], [(0, 0, 0), (1.1, 0, 0)]),
                      _pat(['C', 'H'], [(0, 0, 0), (1.15, 0, 0)], charges=[0.0, 0.37], groups=[0, 5])),
+    # ... and by 0.002 A (a re-fitted fragment, coordinates differing in the third decimal): still not "the same coordinates"
+    'CH->CH-moved-0.002A': (_pat(['C', 'H'], [(0, 0, 0), (1.1, 0, 0)]),
+                            _pat(['C', 'H'], [(0, 0, 0), (1.1, 0.002, 0)], charges=[0.0, 0.37], groups=[0, 5])),
     # search C_a-C_b-H ; replacement keeps C_a and brings N: C_b and H are removed (an atom another match may merely retain)
     'CCH->CN': (_pat(['C', 'C', 'H'], [(0, 0, 0), (1.5, 0, 0), (2.0, 0.9, 0)]),
                 _pat(['C', 'N'], [(0, 0, 0), (1.4, 0.2, 0)], charges=[0.0, -0.3], groups=[0, 1], bonds=[(0, 1)], bond_types=[0], tables=True, labels=['pC', 'pN'])),
